@@ -69,6 +69,13 @@ package bytesconv
 //@ trusted-pure bytebufferpool.Pool
 //@ trusted-pure sync.Pool
 
+// Assumed: the pools of the repository are constructed with a New function that returns a non-nil object
+// (NewServer: &eventStack{}; utils.CopyBufPool: a 4 KiB buffer), so Get never yields nil; Get touches no state
+// the contracts speak about.
+//@ extern sync.Pool.Get(p) r
+//@   abstract-too
+//@   ensures r != nil
+
 //@ extern fmt.Errorf(format, a) r
 //@   allocates
 //@   ensures r != nil
